@@ -46,6 +46,12 @@ struct Spare {
   1: required i64 x
 }
 
+struct Limits {
+  1: optional i32 burst
+  2: optional i32 rate = 10
+  3: optional string zone = "default"
+}
+
 service Api {
   void ping()
   common.Item get(1: string id) throws (1: common.Oops err)
@@ -102,6 +108,11 @@ service Admin {
 		dg("idl/v1/api.thrift", kAddReq, "fresh", "Item"))
 	add(with("idl/v1/api.thrift", repl(api, "1: optional i32 count", "1: required i32 count")), []string{eOptToReq},
 		dg("idl/v1/api.thrift", kOptToReq, "count", "Item"))
+	// the optional field carried a default value in the old version
+	add(with("idl/v1/api.thrift", repl(api, "2: optional i32 rate = 10", "2: required i32 rate")), []string{eOptToReqDefault},
+		dg("idl/v1/api.thrift", kOptToReq, "rate", "Limits"))
+	add(with("idl/v1/api.thrift", repl(repl(api, "1: optional i32 burst", "1: required i32 burst"), "3: optional string zone = \"default\"", "3: required string zone")), []string{eOptToReq, eOptToReqDefault},
+		dg("idl/v1/api.thrift", kOptToReq, "burst", "Limits"), dg("idl/v1/api.thrift", kOptToReq, "zone", "Limits"))
 	add(with("idl/v1/api.thrift", repl(api, "2: optional common.Item inner", "2: optional Spare inner")), []string{eChangeType},
 		dg("idl/v1/api.thrift", kTypeChange, "inner", "Item"))
 	add(with("idl/v1/api.thrift", repl(api, "4: required list<string> tags", "4: required list<binary> tags")), []string{eChangeType},
